@@ -5,7 +5,7 @@
   ops:   reset | begin t:<tid>|n:<now> <status> <u> <d> <e> | store <oid> <serial> <data>
          delete <oid> <serial> | restore <oid> <serial> <data|None> <prevtxn|None> | undo <tid>
          vote | finish | abort | reopen | state
-         qall oids=a,b bounds=.. serials=.. hsizes=.. windows=f:l,.. iters=s:e,.. linv=..
+         qall oids=a,b bounds=.. serials=.. hsizes=.. windows=f:l,.. fwindows=user:f:l,.. iters=s:e,.. linv=..
   The answer of `qall` is one line of ` | `-separated `query=answer` segments.
   The same process also drives the MappingStorage model (`ZodbModel/Mapping.lean`):
          m.reset | m.begin t:<tid>|n:<now> <u> <d> <e> | m.store <oid> <serial> <data> | m.finish | m.abort
@@ -83,6 +83,11 @@ def pairList (s : String) : List (String × String) :=
     | [a, b] => some (a, b)
     | _ => none
 
+def tripleList (s : String) : List (String × String × String) :=
+  (parseList s).filterMap fun p => match p.splitOn ":" with
+    | [a, b, c] => some (a, b, c)
+    | _ => none
+
 def showHist (e : HistEntry) : String :=
   hexN 8 e.tid ++ "," ++ showBytes e.user ++ "," ++ showBytes e.desc ++ "," ++ showBytes e.ext ++ "," ++
     toString e.size
@@ -100,9 +105,7 @@ def showTxn (t : Txn) : String :=
 
 /-- record tids as stored in the data headers (the iterator reports `h.tid`), per transaction -/
 def recTids (s : FS) (start stop : Option Nat) : String :=
-  let ts := iterTake stop (match start with
-                           | none => s.log.reverse
-                           | some a => skipToStart a false s.log)
+  let ts := iterTake stop (iterFrom start false (fileLog s))
   joinWith ";" (ts.map fun t => joinWith "," (t.recs.reverse.map fun r => hexN 8 r.tid))
 
 def walkIter (s : FS) : Nat → Nat → List String → String
@@ -130,6 +133,7 @@ def qall (s : FS) (toks : List String) : String :=
   let hsizes := natList (arg toks "hsizes")
   let windows := pairList (arg toks "windows")
   let iters := pairList (arg toks "iters")
+  let fwindows := tripleList (arg toks "fwindows")
   let linv := natList (arg toks "linv")
   let segs : List String :=
     ["lastTransaction=" ++ hexN 8 (lastTransaction s)] ++
@@ -151,6 +155,12 @@ def qall (s : FS) (toks : List String) : String :=
         (match w.1.toNat?, w.2.toNat? with
          | some f, some l => "[" ++ joinWith ";" ((undoLog s f l).map showUndo) ++ "]"
          | _, _ => "bad-arg")) ++
+    fwindows.map (fun w =>
+      (match parseBytes w.1, w.2.1.toNat?, w.2.2.toNat? with
+       | some u, some f, some l =>
+         "undoLogF(" ++ showBytes u ++ "," ++ w.2.1 ++ "," ++ w.2.2 ++ ")=[" ++
+           joinWith ";" ((undoLogF s (fun e => e.user == u) f l).map showUndo) ++ "]"
+       | _, _, _ => "undoLogF=bad-arg")) ++
     iters.map (fun w =>
       "iterator(" ++ w.1 ++ "," ++ w.2 ++ ")=" ++
         (match parseONat w.1, parseONat w.2 with
